@@ -123,6 +123,7 @@ type clientConn struct {
 	closeWG sync.WaitGroup
 	started bool
 	ended   bool
+	panics  []string // panics recovered in goroutines this harness owns (RPC goroutines, Close)
 	baseG   int // runtime.NumGoroutine() before the case started anything
 	scOnce  sync.Once
 }
@@ -273,7 +274,7 @@ func (c *clientConn) start(f []string) string {
 	}
 	opts := transport.ConnectOptions{
 		Dialer:           func(context.Context, string) (net.Conn, error) { return c.cc, nil },
-		BufferPool:       mem.DefaultBufferPool(),
+		BufferPool:       mem.NewTieredBufferPool(256, 4<<10, 16<<10, 32<<10, 1<<20), // per case: a corrupted pool must not leak into the next case
 		StaticWindowSize: true,
 	}
 	mhl := uint32(256) // what the client is prepared to receive (framer MaxHeaderListSize)
@@ -296,8 +297,19 @@ func (c *clientConn) start(f []string) string {
 	return "ok " + c.snapshot()
 }
 
+// guard turns a panic of transport code running on one of the harness's own goroutines into a PANIC output of the
+// op during which it happened (a panic on a transport-internal goroutine still kills the process = CRASH).
+func (c *clientConn) guard() {
+	if p := recover(); p != nil {
+		c.mu.Lock()
+		c.panics = append(c.panics, strings.ReplaceAll(fmt.Sprint(p), "\n", " "))
+		c.mu.Unlock()
+	}
+}
+
 func (c *clientConn) runRPC(r *ccRPC) {
 	defer close(r.exited)
+	defer c.guard()
 	s, err := c.ct.NewStream(r.ctx, &transport.CallHdr{Host: "h", Method: "/s/m"}, nil)
 	c.mu.Lock()
 	r.nsDone, r.nsErr, r.s = true, err, s
@@ -435,6 +447,9 @@ func (c *clientConn) Op(f []string) string {
 		}
 		c.teardown()
 		settle()
+		if p := c.panicked(); p != "" {
+			return p
+		}
 		return fmt.Sprintf("ok %s leak=%d", c.snapshot(), bubbleGoroutines()-3) // the bubble itself: synctest.Run, the testing wrapper and the goroutine running this op
 	}
 	if c.ended {
@@ -488,6 +503,7 @@ func (c *clientConn) Op(f []string) string {
 		c.closeWG.Add(1)
 		go func() {
 			defer c.closeWG.Done()
+			defer c.guard()
 			c.ct.Close(transport.ErrConnClosing) // what addrConn passes
 		}()
 	case "hold":
@@ -498,7 +514,19 @@ func (c *clientConn) Op(f []string) string {
 		return "bad-op"
 	}
 	settle()
+	if p := c.panicked(); p != "" {
+		return p
+	}
 	return res + " " + c.snapshot()
+}
+
+func (c *clientConn) panicked() string {
+	c.mu.Lock()
+	defer c.mu.Unlock()
+	if len(c.panics) == 0 {
+		return ""
+	}
+	return "PANIC " + strings.Join(c.panics, "; ")
 }
 
 // bubbleGoroutines counts the goroutines of the current synctest bubble (all-goroutine traceback: the header of a
@@ -525,6 +553,7 @@ func (c *clientConn) teardown() {
 		return
 	}
 	c.ended = true
+	defer c.guard()
 	c.cc.release()
 	if c.ct != nil {
 		c.ct.Close(transport.ErrConnClosing)
